@@ -297,6 +297,21 @@ def run_case(ck, desc):
         if not ck.margin("alpha(node)=1/(c mu) (twin table, same p and m)", e2, 1e-12):
             ck.violation("alpha(node)=1/(c mu)", {"worst_rel": e2, "twin_table": True}, desc)
         ck.count("twin_tables_constructed")
+    # re-wrapping the table of an existing wrapper for another initial pressure (it already carries the
+    # 'alpha' and 'm-scaled' columns): still a caller's table, still untouched, and the first wrapper
+    # stays consistent with its own transform
+    if branch in ("long", "alpha") and n_rows >= 3:
+        p_other = float(p[max(1, n_rows // 2)])
+        ms_before = np.array(obj.pvt_props["m-scaled"], dtype=float, copy=True)
+        with warnings.catch_warnings():
+            warnings.simplefilter("ignore")
+            obj3 = FlowProperties(obj.pvt_props, p_other)
+        drain("__init__")
+        if not np.array_equal(np.asarray(obj.pvt_props["m-scaled"], dtype=float), ms_before):
+            ck.violation("caller-table-unmodified", {"fn": "FlowProperties.__init__", "re-wrapped": True}, desc)
+        if abs(float(obj3.m_scaled_func(p_other)) - float(obj3.m_i)) > 1e-15 * abs(float(obj3.m_i)):
+            ck.violation("m_scaled_func(p_i)=m_i", {"re-wrapped": True}, desc)
+        ck.count("tables_rewrapped")
     ck.count(f"constructed.{branch}.{desc['as']}.{where}")
     return n_rows >= 2, {"rows": n_rows, "m_i": m_i, "p_i": p_i, "where": where}
 
